@@ -196,6 +196,8 @@ def mk_round(rng, members, joined, stale, symbolic=True):
         r["gossip"] = [{"m": m, "view": mk_view(rng, members, joined, stale if rng.random() < 0.5 else 0, 0.1, symbolic)}]
     if rng.random() < 0.12:
         r["flush"] = True
+    if rng.random() < 0.2 and r["def"] in ("D", "F", "C", "R", "L"):
+        r["sync"] = True      # the round's answers reach the responsible together
     return r
 
 
@@ -357,8 +359,37 @@ def gen_rendezvous(rng):
     return {"members": ms, "ops": ops, "rt_us": 2000, "rv_ms": 40, "rendezvous": True}
 
 
+def gen_grpc(rng):
+    """Real transport: three members over aspen/transport/grpc (freighter/go/grpc) on ephemeral loopback ports.
+    Coordinators a and b suspect each other, so their only majority quorums are {a, s} and {b, s}. For scripted
+    proposals the gRPC server of juror s answers by itself with DEADLINE_EXCEEDED (S) or CANCELED (X) - a server-side
+    deadline / load shedding - while the coordinator's request context is alive: the juror never sees the proposal,
+    the coordinator must take that for a failure and retry. The juror's verdicts are recorded at the juror."""
+    members = [1, 2, 3]
+    rng.shuffle(members)
+    s_, a, b = members
+    def view(k):
+        return [[m, ST_S if (k == a and m == b) or (k == b and m == a) else ST_H, m] for m in (1, 2, 3)]
+    mx = rng.choice([3, 4])
+    ms = [{"addr": k, "ck": 7, "max": mx, "view": view(k)} for k in (1, 2, 3)]
+    ops = []
+    for i in range(rng.choice([2, 2, 3])):
+        via = a if i % 2 == 0 else b
+        nshed = rng.choice([1, 1, 2]) if i < 2 else rng.choice([0, 1])
+        rounds = [{"def": "D", "by": {str(s_): rng.choice(["S", "S", "X"])}} for _ in range(min(nshed, mx - 1))]
+        if rng.random() < 0.25:
+            rounds.insert(rng.randrange(len(rounds) + 1), {"def": "D", "by": {str(via): "F"}})
+            rounds = rounds[:mx - 1]
+        ops.append({"op": "par", "pledges": [{"p": 101 + i, "max": 3, "attempts": [
+            {"via": via, "how": "D", "rounds": rounds}]}]})
+    if rng.random() < 0.5:
+        ops.append({"op": "probe", "m": s_, "key": rng.choice([4, 5, 6])})
+    return {"kind": "grpc", "members": ms, "ops": ops, "rt_us": 2000000}
+
+
 CLUSTER_SHARE = 0.06
 RENDEZVOUS_SHARE = 0.025
+GRPC_CASES = {"quick": 8, "thorough": 60}
 
 
 def gen_cases(rng, tier, n):
@@ -371,6 +402,9 @@ def gen_cases(rng, tier, n):
             out.append(gen_rendezvous(rng))
         else:
             out.append(gen_guarded(rng))
+    # a handful of real-transport cases, spread over the batch
+    for _ in range(GRPC_CASES.get(tier, 8)):
+        out[rng.randrange(len(out))] = gen_grpc(rng)
     return out
 
 
@@ -427,6 +461,8 @@ def histogram(case, r):
     ks = ["members=%d" % len(case["members"])]
     if case.get("rendezvous"):
         ks.append("rendezvous_inside_juror")
+    if case.get("kind") == "grpc":
+        ks.append("real_grpc_transport")
     npl = len(all_pledges(case))
     ks.append("pledges=%d" % npl)
     for o in case["ops"]:
@@ -644,14 +680,20 @@ RULE = ("main batch: clusters of 1-7 arbitrating members with per-member candida
         "joined through a reopened or a joined member. About 2.5% are rendezvous scripts (two concurrent pledges "
         "through two coordinators whose forced juries share one juror; both proposals are held INSIDE that juror's "
         "Candidates() call until they meet or 40 ms pass): they sample the atomicity of juror.verdict, which the "
-        "model assumes and on which every LTS theorem rests.")
+        "model assumes and on which every LTS theorem rests. 8 cases per quick run (60 thorough) run the same "
+        "script machinery over the REAL transport (aspen/transport/grpc on ephemeral loopback ports): a juror's gRPC "
+        "server answers scripted proposals itself with DEADLINE_EXCEEDED / CANCELED while the coordinator's context "
+        "is alive; verdicts and run results are recorded where they are produced (juror / coordinator side), not "
+        "taken from what the transport returns.")
 TRUSTED = ["cluster-level scripts: the harness only lets a node join while every existing node is open (a join that "
            "cannot reach a quorum makes cluster.Open panic on its nil result and leaves the coordinator's juror with "
            "thousands of remembered keys; both are outside the property and reported separately)",
            "hook aspen/internal/cluster/pledge/export_verif.go (exports the two sentinel errors, add-only)",
            "harness transport wrapper: decides delivery of each juror request, linearises deliveries, view changes and "
            "Candidates() calls under one mutex, attributes Candidates() calls to runs by goroutine id",
-           "pledge.Pledge / pledge.Arbitrate / responsible / juror and the freighter mock network run for real"]
+           "pledge.Pledge / pledge.Arbitrate / responsible / juror and the freighter mock network run for real; in the "
+           "gRPC cases aspen/transport/grpc + freighter/go/grpc run for real as well, a server interceptor injects the "
+           "scripted statuses, and the run id of a pledge request travels in the request's unused ClusterKey"]
 ASSUMES = ["juror.verdict is atomic (one model step): lookup, range check and append cannot interleave with another "
            "verdict of the same juror; sampled on the real juror by the rendezvous scripts, not proved",
            "node keys stay below 2^12 (Go uint16/Uint12 wrap-around of highest+1 not modelled)",
